@@ -228,12 +228,13 @@ def r01_2_file_ownership(chk, m):
     chk.require(guard_ok, "R01.2", "records-refuse-without-label",
                 "the record writer no longer refuses to run before the label was written", wlr.where)
     # the label goes to the file unframed: write_storage_unit_label passes represent_as_bytes().bts straight on
-    ok = False
-    for n in walk_local(wsul.node):
-        if isinstance(n, ast.Call) and wb in ix.resolve_call(n, Scope(ix, wsul))[0] and n.args:
-            ok = "represent_as_bytes" in norm(n.args[0]) and not any(
-                isinstance(x, ast.Call) and x is not n and "represent_as_bytes" not in norm(x)
-                for x in ast.walk(n.args[0]) if isinstance(x, ast.Call) and x.args)
+    from ..terms import is_call as _is_call, call_recv as _call_recv
+    ssum = chk.terms.inline(wsul, 1, stop=lambda g_: g_.cls is not wsul.cls)
+    label_p = ("param", wsul.param_names[1]) if len(wsul.param_names) > 1 else None
+    made = ("call", ("attr", label_p, "represent_as_bytes"), (), ())
+    handed = [c[2][0] for c, tg in ssum.calls.items() if wb in tg and c in ssum.precise and c[2]]
+    # what is handed to the byte writer is the label's own bytes object, or a field of it - nothing built around it
+    ok = bool(handed) and all(a == made or (a[0] == "attr" and a[1] == made) for a in handed)
     chk.require(ok, "R01.2", "label-unframed", "the label bytes are wrapped / altered before being written", wsul.where)
 
 
